@@ -50,7 +50,9 @@ P == Profiles[pf]
 \* P.K       number of items (closing braces not counted) of an emitted program
 \* P.nv      number of variable names (1..3)
 \* P.depth   maximal number of open scopes below the file
-\* P.ns P.cls P.lam P.ovl P.loop P.qual P.init   feature switches (BOOLEAN)
+\* P.ns P.cls P.lam P.ovl P.loop P.qual P.init   feature switches (BOOLEAN): namespaces, classes, lambdas, overloaded f,
+\*           for loops, qualified names, initialisers that use a name
+\* P.late    a member function may use a name that only becomes a member later in the class
 \* P.maxpar  maximal number of parameters of a generated function
 \* P.sigs    parameter type lists that a declaration of f may have
 \* P.argt    argument types a call of f may use
